@@ -379,6 +379,10 @@ def _iv_dicts():
     for combo in itertools.product(range(len(vals)), repeat=3):
         d = {k: vals[c] for k, c in enumerate(combo) if vals[c] is not None}
         out.append(d)
+        if len(d) >= 2:       # the same interventions listed in another (non-ascending) order
+            out.append(dict(reversed(list(d.items()))))
+        if len(d) == 3:
+            out.append({2: d[2], 0: d[0], 1: d[1]})
     return out
 
 
